@@ -10,23 +10,59 @@ const RULE: &str = "cases = generated histories (chain histories with contracts,
 staking histories; bank histories). For each history the transcript (every response incl. events and data, Ok/Err, code ids, addresses, checksums, \
 query answers, what every contract invocation observed, final raw storage bytes) of a solo run is compared with: (1) a second fresh instance in the same \
 process, (2) two instances fed the same program alternately, operation by operation, while a third instance does unrelated work in between, \
-(2b) a replay on a fresh thread in which a differently configured instance (other bech32 prefix, other block) was used first, (3) separate OS processes started >= 1 s apart (different wall-clock second, address-space layout, hash-map keys; one of them uses a differently configured instance before anything else), (4, thorough) the interpreter Miri with \
+(2b) replays on a thread that never hosted an instance (chain, staking and bank programs; the staking and bank programs are generated on a thread of their own and handed to the other processes in a file, so that generation never precedes a compared execution), (2c) a replay on a fresh thread in which a differently configured instance (other bech32 prefix, other block) was used first, (3) separate OS processes started >= 1 s apart (different wall-clock second, address-space layout, hash-map keys; one of them uses a differently configured instance before anything else), (4, thorough) the interpreter Miri with \
 isolation (any clock / entropy / environment / file access aborts) under different -Zmiri-seed values. distinct_nontrivial = distinct solo transcript digests \
 of histories compared in at least two modes.";
 
 pub fn child(args: &[String]) {
-    // --c19-child <seed> <chain_n> <chain_len> <other_n>
+    // --c19-child <seed> <chain_n> <chain_len> <file with staking and bank programs | -> <plain | foreign-first | other-first>
     let seed: u64 = args.first().and_then(|s| s.parse().ok()).unwrap_or(1);
     let chain_n: u64 = args.get(1).and_then(|s| s.parse().ok()).unwrap_or(2);
     let chain_len: usize = args.get(2).and_then(|s| s.parse().ok()).unwrap_or(10);
-    let other_n: u64 = args.get(3).and_then(|s| s.parse().ok()).unwrap_or(1);
-    if args.get(4).map(|s| s.as_str()) == Some("foreign-first") {
+    let other: OtherCases = match args.get(3).map(|s| s.as_str()) {
+        None | Some("-") | Some("0") => OtherCases::default(),
+        Some(path) => match std::fs::read(path).ok().and_then(|b| serde_json::from_slice(&b).ok()) {
+            Some(c) => c,
+            None => {
+                eprintln!("cannot read the programs file {}", path);
+                std::process::exit(3);
+            }
+        },
+    };
+    let order = args.get(4).map(|s| s.as_str()).unwrap_or("plain");
+    if order == "foreign-first" {
         // the very first instance of this process is a differently configured one
         run_foreign_instance(seed);
     }
-    for l in digest_lines(seed, chain_n, chain_len, other_n) {
+    for l in digest_lines(seed, chain_n, chain_len, &other, order == "other-first") {
         println!("DIGEST {}", l);
     }
+}
+
+/// The executions of one program: the first on a fresh thread, the others on the worker thread.
+fn compare_runs(rep: &mut Report, runs: &[Result<Vec<String>, String>], kind: &str, j: u64, case: serde_json::Value) {
+    let first = match &runs[0] {
+        Ok(t) => t,
+        Err(p) => {
+            rep.violate("C19", "fresh-instance-panics-where-earlier-identical-instances-worked", p.clone(), json!({"engine": "e7", "mode": format!("twin-{}", kind), "history": j, "panic": p}));
+            return;
+        }
+    };
+    for (n, r) in runs.iter().enumerate().skip(1) {
+        match r {
+            Ok(t) if t == first => {}
+            Ok(t) => {
+                let sig = if n == 1 { "transcript-on-a-used-thread-differs-from-fresh-thread" } else { "twin-instance-transcript-differs" };
+                rep.violate("C19", sig, first_diff(first, t), json!({"engine": "e7", "mode": format!("twin-{}", kind), "history": j, "case": case}));
+                return;
+            }
+            Err(p) => {
+                rep.violate("C19", "fresh-instance-panics-where-earlier-identical-instances-worked", p.clone(), json!({"engine": "e7", "mode": format!("twin-{}", kind), "history": j, "panic": p}));
+                return;
+            }
+        }
+    }
+    rep.fingerprints.insert(fp_str(&sha(first)));
 }
 
 fn parse_digests(out: &str) -> Vec<String> {
@@ -43,10 +79,21 @@ pub fn run(ctx: &Ctx) -> Report {
     let exe = std::env::current_exe().expect("current exe");
     let proc_n = ctx.scale(60, 600);
     let proc_other = ctx.scale(20, 200);
+    // the staking and bank programs are generated here and handed to the other processes, whose very first
+    // instances are then the compared ones (generation drives instances of its own)
+    let proc_cases = other_cases(seed, proc_other);
+    let cases_file = exe.parent().map(|p| p.to_path_buf()).unwrap_or_else(std::env::temp_dir).join(format!("c19-programs-{}-{}.json", std::process::id(), seed));
+    if let Err(e) = std::fs::write(&cases_file, serde_json::to_vec(&proc_cases).unwrap_or_default()) {
+        let mut rep = Report::new();
+        rep.inconclusive.push(format!("cannot write {}: {}", cases_file.display(), e));
+        return rep;
+    }
     let mut children = vec![];
     for i in 0..3 {
         let c = Command::new(&exe)
-            .args(["--c19-child", &seed.to_string(), &proc_n.to_string(), &chain_len.to_string(), &proc_other.to_string(), if i == 1 { "foreign-first" } else { "plain" }])
+            .args(["--c19-child", &seed.to_string(), &proc_n.to_string(), &chain_len.to_string()])
+            .arg(&cases_file)
+            .arg(["plain", "foreign-first", "other-first"][i])
             .env_remove("RUST_BACKTRACE")
             .stdout(std::process::Stdio::piped())
             .stderr(std::process::Stdio::piped())
@@ -66,7 +113,7 @@ pub fn run(ctx: &Ctx) -> Report {
         let c = Command::new("cargo")
             .args(["+nightly", "miri", "run", "--offline", "--quiet", "--manifest-path"])
             .arg(&manifest)
-            .args(["--target-dir", &miri_target, "--bin", "vcheck", "--", "--c19-child", &(seed + s / 4).to_string(), "1", "3", "0"])
+            .args(["--target-dir", &miri_target, "--bin", "vcheck", "--", "--c19-child", &(seed + s / 4).to_string(), "1", "3", "-"])
             .env("MIRIFLAGS", format!("-Zmiri-seed={}", s))
             .env("CARGO_NET_OFFLINE", "true")
             .env_remove("RUST_BACKTRACE")
@@ -115,6 +162,15 @@ pub fn run(ctx: &Ctx) -> Report {
                     rep.violate("C19", "transcript-depends-on-an-earlier-differently-configured-instance", first_diff(&solo, &tf), json!({"engine": "e7", "mode": "after-foreign-instance", "history": i, "case": case}));
                 }
             }
+            if i % 4 == 2 {
+                // a thread that never hosted an instance
+                rep.bump("c19/chain/fresh_thread_compared");
+                match on_fresh_thread(|| chain_replay(&case)) {
+                    Ok(tf) if tf == solo => {}
+                    Ok(tf) => rep.violate("C19", "transcript-on-a-used-thread-differs-from-fresh-thread", first_diff(&tf, &solo), json!({"engine": "e7", "mode": "fresh-thread", "history": i, "case": case})),
+                    Err(p) => rep.violate("C19", "fresh-instance-panics-where-earlier-identical-instances-worked", p.clone(), json!({"engine": "e7", "mode": "fresh-thread", "history": i, "panic": p})),
+                }
+            }
             rep.fingerprints.insert(fp_str(&d));
             if w == 0 && i == 0 {
                 rep.sample(json!({"history": "chain 0", "digest": d, "records": solo.len(), "first_records": solo.iter().take(3).map(|s| s.chars().take(200).collect::<String>()).collect::<Vec<_>>()}));
@@ -123,37 +179,24 @@ pub fn run(ctx: &Ctx) -> Report {
         }
         let mut j = w as u64;
         while j < n_other {
-            // generation and both replays run on fresh instances; a panic in one of them (a fresh instance that
-            // cannot be set up or driven any more) is a difference between executions, not a harness problem
-            let r = catch(|| {
-                let sc = staking_history(seed, j);
-                (staking_transcript(&sc), staking_transcript(&sc), sc)
-            });
-            rep.evaluations += 1;
-            rep.bump("c19/staking/twin_compared");
-            match r {
-                Ok((a, b, sc)) => {
-                    if a != b {
-                        rep.violate("C19", "twin-instance-transcript-differs", first_diff(&a, &b), json!({"engine": "e7", "mode": "twin-staking", "history": j, "case": sc}));
-                    }
-                    rep.fingerprints.insert(fp_str(&sha(&a)));
+            // the program is generated on a thread of its own; it is then run on a thread that never hosted an
+            // instance and twice on this worker thread, which has hosted many (with later block times, other
+            // parameters, other denominations). A panic in one of them (a fresh instance that cannot be set up or
+            // driven any more) is a difference between executions, not a harness problem
+            match on_fresh_thread(|| (staking_history(seed, j), bank_history(seed, j))) {
+                Ok((sc, bc)) => {
+                    let runs = [on_fresh_thread(|| staking_transcript(&sc)), catch(|| staking_transcript(&sc)), catch(|| staking_transcript(&sc))];
+                    rep.evaluations += 1;
+                    rep.bump("c19/staking/twin_compared");
+                    rep.bump("c19/staking/fresh_thread_compared");
+                    compare_runs(&mut rep, &runs, "staking", j, json!(sc));
+                    let runs = [on_fresh_thread(|| bank_transcript(&bc)), catch(|| bank_transcript(&bc)), catch(|| bank_transcript(&bc))];
+                    rep.evaluations += 1;
+                    rep.bump("c19/bank/twin_compared");
+                    rep.bump("c19/bank/fresh_thread_compared");
+                    compare_runs(&mut rep, &runs, "bank", j, json!(bc));
                 }
-                Err(p) => rep.violate("C19", "fresh-instance-panics-where-earlier-identical-instances-worked", p.clone(), json!({"engine": "e7", "mode": "twin-staking", "history": j, "panic": p})),
-            }
-            let r = catch(|| {
-                let bc = bank_history(seed, j);
-                (bank_transcript(&bc), bank_transcript(&bc), bc)
-            });
-            rep.evaluations += 1;
-            rep.bump("c19/bank/twin_compared");
-            match r {
-                Ok((a, b, bc)) => {
-                    if a != b {
-                        rep.violate("C19", "twin-instance-transcript-differs", first_diff(&a, &b), json!({"engine": "e7", "mode": "twin-bank", "history": j, "case": bc}));
-                    }
-                    rep.fingerprints.insert(fp_str(&sha(&a)));
-                }
-                Err(p) => rep.violate("C19", "fresh-instance-panics-where-earlier-identical-instances-worked", p.clone(), json!({"engine": "e7", "mode": "twin-bank", "history": j, "panic": p})),
+                Err(p) => rep.violate("C19", "fresh-instance-panics-where-earlier-identical-instances-worked", p.clone(), json!({"engine": "e7", "mode": "generation", "history": j, "panic": p})),
             }
             j += ctx.workers as u64;
         }
@@ -161,7 +204,8 @@ pub fn run(ctx: &Ctx) -> Report {
     });
 
     // collect the separate processes
-    let mine = digest_lines(seed, proc_n, chain_len, proc_other);
+    let mine = digest_lines(seed, proc_n, chain_len, &proc_cases, false);
+    let _ = std::fs::remove_file(&cases_file);
     for (k, c) in children.into_iter().enumerate() {
         match c.and_then(|c| c.wait_with_output()) {
             Ok(out) if out.status.success() => {
@@ -186,7 +230,7 @@ pub fn run(ctx: &Ctx) -> Report {
                     let stderr = String::from_utf8_lossy(&out.stderr).to_string();
                     let theirs = parse_digests(&stdout);
                     if out.status.success() && !theirs.is_empty() {
-                        let mine = digest_lines(hseed, 1, 3, 0);
+                        let mine = digest_lines(hseed, 1, 3, &OtherCases::default(), false);
                         rep.bump("c19/miri_seeds_compared");
                         if theirs != mine {
                             rep.violate("C19", "transcript-under-miri-differs", format!("-Zmiri-seed={}: {:?} vs native {:?}", s, theirs, mine), json!({"engine": "e7", "mode": "miri", "miri_seed": s, "seed": hseed}));
@@ -211,7 +255,7 @@ pub fn run(ctx: &Ctx) -> Report {
     rep.rule = RULE.into();
     rep.assume("transcripts exclude error texts (Ok/Err only), as the property speaks of errors-or-not");
     rep.assume("Miri runs (thorough tier) use a short chain history (setup + 3 transactions) because the interpreter is ~4 orders of magnitude slower");
-    for k in ["c19/chain/twin_compared", "c19/chain/interleaved_compared", "c19/staking/twin_compared", "c19/bank/twin_compared", "c19/processes_compared", "c19/chain/unrelated_steps_interleaved", "c19/chain/after_foreign_instance_compared"] {
+    for k in ["c19/chain/twin_compared", "c19/chain/interleaved_compared", "c19/staking/twin_compared", "c19/bank/twin_compared", "c19/staking/fresh_thread_compared", "c19/chain/fresh_thread_compared", "c19/processes_compared", "c19/chain/unrelated_steps_interleaved", "c19/chain/after_foreign_instance_compared"] {
         rep.require(k);
     }
     if thorough && rep.count("c19/miri_seeds_compared") == 0 && std::env::var("VERIF_MIRI_SEEDS").map(|s| s != "0").unwrap_or(true) {
